@@ -54,6 +54,10 @@ def run(chk, orch):
             # the number of files (replicates) is part of the input: it is fixed per workload, only the ORDER of the files
             # varies (IsoQuant treats several files of one experiment as technical replicates when building models)
             spec["n_bams"] = chk.rng.choice([1, 1, 2, 3])
+            if k == 0:
+                # two experiments with the same read ids in one invocation: the alignments of one experiment must not take part
+                # in the resolution of the other (variant 2 runs them in one process with --high_memory)
+                spec.update(n_exp=2, exp_mode="same", n_bams=1)
             for v in range(4 if quick else 6):
                 s2 = dict(spec)
                 o = dict(opts)
@@ -64,6 +68,8 @@ def run(chk, orch):
                         o["bam_order"] = chk.rng.randrange(1, 9)
                 cell = common.random_cell(chk.rng) if v > 0 else dict(common.GOLDEN_CELL)
                 cell["hashseed"] = 0
+                if k == 0 and v == 2:
+                    cell.update(high_memory=True, threads=1, sched={"policy": "serial", "seed": 0})
                 a = common.job_args(s2, o, cell, oracles=["counts", "ties"])
                 if v == (4 if quick else 6) - 1:
                     # history of the output folder: another data set with multi-mappers was processed there with --keep_tmp
